@@ -3,6 +3,7 @@ package main
 import (
 	"fmt"
 	"go/ast"
+	"go/token"
 	"go/types"
 	"sort"
 	"strings"
@@ -802,6 +803,7 @@ func c13Setup(c *Ctx, v *vocab) {
 	if tf != nil {
 		tin := c.traces(tf)
 		th := &Interp{P: c.P, Info: tf.Pkg.TypesInfo}
+		tsig := tf.Obj.Type().(*types.Signature)
 		okT := len(tin.Traces) > 0
 		sawClear := false
 		for _, t := range tin.Traces {
@@ -816,7 +818,28 @@ func c13Setup(c *Ctx, v *vocab) {
 					sawClear = true
 				}
 			}
-			if !dels[actives] || !dels[temps] {
+			// the id-map entry may be kept only when it is not this client (entry compared with the
+			// client parameter on the path): another connection owns the id, nothing to unregister
+			notMine := false
+			for _, e := range t.Ev {
+				if e.Kind != EvCond {
+					continue
+				}
+				if b, isB := ast.Unparen(e.Cond).(*ast.BinaryExpr); isB && (b.Op == token.EQL || b.Op == token.NEQ) {
+					x, y := ast.Unparen(b.X), ast.Unparen(b.Y)
+					if _, isIx := x.(*ast.IndexExpr); !isIx {
+						x, y = y, x
+					}
+					if ix, isIx := x.(*ast.IndexExpr); isIx && th.objOf(ix.X) == actives {
+						if id, isId := y.(*ast.Ident); isId && tsig.Params().Len() > 0 && th.objOf(id) == tsig.Params().At(0) {
+							if (b.Op == token.EQL) != e.Outcome {
+								notMine = true
+							}
+						}
+					}
+				}
+			}
+			if !(dels[actives] || notMine) || !dels[temps] {
 				okT = false
 			}
 		}
